@@ -32,7 +32,8 @@ Qed.
 Theorem escape_table_regenerated :
   Consts.c14n_escape_table_found = true -> forall c, esc_char c = esc_from_source c.
 Proof.
-  intros _ c. destruct (N.lt_ge_cases c 128) as [Hlt|Hge].
+  intros Hf c. first [ (vm_compute in Hf; discriminate Hf) | idtac ]. clear Hf.
+  destruct (N.lt_ge_cases c 128) as [Hlt|Hge].
   - assert (H : forallb (fun c => str_eqb (esc_char c) (esc_from_source c)) below128 = true) by (vm_compute; reflexivity).
     rewrite forallb_forall in H. apply str_eqb_eq. apply H.
     unfold below128. apply in_map_iff. exists (N.to_nat c). split; [apply N2Nat.id|].
